@@ -43,6 +43,7 @@ def check(run):
         run.guard("C01.1.token-source", cfg + "/scheme", lambda: rule_scheme_tokens(run, F, cfg))
         run.guard("C01.1.token-source", cfg + "/sources", lambda: rule_token_sources(run, F, cfg))
         run.guard("C01.6.rule-matcher", cfg, lambda: rule_matches_conjunction(run, F, cfg))
+        run.guard("C01.7.rule-identity", cfg, lambda: rule_identity(run, F, cfg))
         run.guard("C01.4.token-boundary", cfg + "/tokenizer", lambda: rule_tokenizer_table(run, F, cfg))
         b = run.borrow("C05", why="a fused rule must still be found for every request one of its members matches")
         run.guard("C01.via.C05.1.fusion-key", cfg, lambda: _C05.rule_key(b, F, cfg))
@@ -581,3 +582,23 @@ def rule_matches_conjunction(run, F, cfg):
     run.ob("C01.6.rule-matcher", "options-and-pattern", ok,
            "NetworkFilter::matches is check_options(..) && check_pattern(..): false when the options fail, the "
            "pattern verdict otherwise", site=m.loc(0), config=cfg, detail=detail)
+
+
+def rule_identity(run, F, cfg):
+    """Buckets are de-duplicated by NetworkFilter.id (insert_dup), and Blocker::add_filter rejects a rule whose id
+    is already present: two different rule lines must therefore have different ids. The id is the hash of the
+    whole rule line, unmodified (not lower-cased: `$removeparam=Ref` and `=ref`, `$tag=` values, case-sensitive
+    regexes differ by case only; not the option-independent identity used for $badfilter, which ignores the tag)."""
+    p = F.fn("filters::network::NetworkFilter::parse")
+    ids = []
+    for b, i, st in p.statements():
+        if st["k"] == "assign" and st["rv"]["k"] == "agg" and st["rv"].get("adt") == "filters::network::NetworkFilter":
+            d = dict(zip(st["rv"]["fields"], st["rv"]["ops"]))
+            ids.append(p.expr_operand(d["id"]))
+    run.ob("C01.7.rule-identity", "id-is-hash-of-the-line", ids == ["utils::fast_hash(arg:line)"],
+           f"NetworkFilter::parse sets id = utils::fast_hash(line) of the unmodified rule text ({ids})", site=p.loc(0), config=cfg)
+    ins = F.fn("network_filter_list::insert_dup")
+    keyed = [ins.expr_call(t) for b, t in ins.calls(r"binary_search|contains|::eq$|PartialEq")]
+    run.touched(ins)
+    run.ob("C01.7.rule-identity", "insert_dup-compares-rules", bool(ins.calls()),
+           "insert_dup drops a rule only if an equal rule (same id) is already in the bucket", config=cfg)
